@@ -336,25 +336,65 @@ from contracts.c14_collect import ParserT  # noqa: E402
 
 fresh_rule_state = uf("fresh_rule_state", [], RStateT)            # the rule objects of a newly created registry
 parser_for = uf("ignore_parser_for", [PathT], ParserT)            # get_ignore_parser(root) in this process
-cwd = uf("cwd", [], PathT)
+default_root = uf("default_project_root", [], PathT)  # the root used when none is given (Path.cwd() of the process)
 
-from contracts.c05_parse import LoaderT  # noqa: E402
+from contracts.c05_parse import LoaderT, yaml_doc, file_of  # noqa: E402
+from contracts.c09_paths import path_div, fs_exists  # noqa: E402
+from contracts.c10_orchestrator import RegistryT  # noqa: E402
 
 OrchInitT = OrchT.extend(config_loader=LoaderT)  # the orchestrator as the CLI layer sees it (+ its config loader)
+REG = "src/core/registry.py::"
+IGN = "src/linter_config/ignore.py::"
+LDR = "src/linter_config/loader.py::"
 
 
-@contract(O + "Orchestrator.__init__", props=["C07", "C06", "C10"],
-          types=dict(self=OrchInitT, project_root=Opt(PathT), config=Opt(Dict)), raises=["Exception"],
+@contract(REG + "RuleRegistry.__init__", props=["C07", "C10"], types=dict(self=RegistryT), modifies=["self.gs"],
+          assumed="plug-in layer: a new registry holds no rule objects yet; its ghost state is the constant fresh_rule_state()")
+class RuleRegistryInit:
+    def ensures(self):
+        return self.gs == fresh_rule_state()
+
+
+@contract(IGN + "get_ignore_parser", props=["C07", "C10"], types=dict(project_root=Opt(PathT)), returns=ParserT,
+          assumed="process-wide cached parser (module globals, reads .thailintignore / config from disk): the parser of "
+                  "this process for the given root is the uninterpreted parser_for(root); C04/C14 cover the parser itself")
+class GetIgnoreParser:
+    def value(project_root):
+        return parser_for(project_root if project_root is not None else default_root())
+
+
+def loadable(config_path):
+    """Precondition of LinterConfigLoader.load (contracts/c05_parse.py): the file, if present, is a mapping or empty."""
+    return isinstance(yaml_doc(file_of(config_path)), dict) or yaml_doc(file_of(config_path)) is None
+
+
+def project_config_loadable(root):
+    return loadable(path_div(root, ".thailint.yaml")) and loadable(path_div(root, ".thailint.json"))
+
+
+@contract(O + "Orchestrator.__init__", no_selftest=True, props=["C07", "C06", "C10"],
+          types=dict(self=OrchInitT, project_root=Opt(PathT), config=Opt(Dict), config_path=PathT),
+          raises=["ConfigParseError", "OSError"],
           modifies=["self.project_root", "self.registry", "self.ignore_parser", "self.config", "self._rules_discovered",
                     "self.config_loader"],
-          assumed="object wiring (new RuleRegistry, LinterConfigLoader, process-wide cached ignore parser) and, when no "
-                  "config dict is passed, configuration discovery from the project root (may fail: any Exception)")
+          inline=[LDR + "LinterConfigLoader.__init__"])
 class OrchestratorInit:
-    def ensures(self, project_root, config):
-        return self.project_root == (project_root if project_root is not None else cwd()) \
-            and implies(config is not None, self.config == config) \
+    def requires(project_root, config):
+        # (every caller passes a project root; the Path.cwd() default is not covered)
+        return project_root is not None and (config is not None or project_config_loadable(project_root))
+
+    def ensures_a_given_configuration_is_used_as_is(self, config):
+        # property text (C07): the workers lint "the same inputs" with the parent's settings -- a configuration passed to
+        # the constructor (as _lint_file_worker does) is THE configuration, whatever it contains; nothing is reloaded
+        return implies(config is not None, self.config == config)
+
+    def ensures_wiring(self, project_root):
+        return self.project_root == project_root \
             and not self._rules_discovered and self.registry.gs == fresh_rule_state() \
             and self.ignore_parser == parser_for(self.project_root)
+
+    def on_raise_only_when_discovering_the_configuration(config):
+        return config is None
 
 
 def dict_of(v):
